@@ -43,6 +43,7 @@ def patterns(g, tier):
     return pats
 
 
+ORIG = {}        # (method, concretised pattern) -> generated pattern
 PROVS = {}       # (method, pattern) -> provenance of each generated character (1 = random bytes, 8 = count)
 P_RBYTES, P_COUNT = 1, 8
 A64 = frozenset(b"./0123456789ABCDEFGHIJKLMNOPQRSTUVWXYZabcdefghijklmnopqrstuvwxyz")
@@ -166,12 +167,13 @@ def build_cells(m, g, tier):
                 if k2 not in seen_k:
                     seen_k.add(k2)
                     keep2.append((k2, src))
+                    ORIG[(method, k2)] = key
             keep = keep2
         for i, (key, src) in enumerate(keep):
             cid = "X%s#%d" % (method, i)
             c = K.crypt_cell(cid, entry, b"", setting_bytes=b"", headsets=list(key), size=(32768, 32768), align=(0, 0))
             cells.append(c)
-            meta[cid] = {"method": method, "pattern": key, "from": src, "row": row}
+            meta[cid] = {"method": method, "pattern": key, "from": src, "row": row, "provs": PROVS.get((method, key)) or PROVS.get((method, ORIG.get((method, key))))}
     return cells, meta
 
 
@@ -249,3 +251,34 @@ def oracle(chk, cg):
                 chk.count("X-ECHO", 1, [cid])
         per[mt["method"]] = per.get(mt["method"], 0) + 1
     return per
+
+
+
+def run_traced(tier="quick"):
+    """the composition cells again (two patterns per method in the quick tier), with read tracing of the phrase and the
+    setting: per cell, the union over all explored paths of the offsets that loads, digest-contract reads, formatted-copy
+    sources and numeric parsers may touch (plain copies into the result are recorded separately, they are an echo)"""
+    key = ("traced", tier)
+    if key in _CACHE:
+        return _CACHE[key]
+    g = G.run(tier)
+    m, info = common.prog("shared")
+    cells, meta = build_cells(m, g, tier)
+    if tier == "quick":
+        by = {}
+        for c in cells:
+            by.setdefault(meta[c["id"]]["method"], []).append(c)
+        cells = []
+        for k, v in sorted(by.items()):
+            cells += [v[0]] + ([v[-1]] if len(v) > 1 else [])
+    kdf = [e for e in K.CONTRACTS["yescrypt_kdf"] if e.get("op") != "ret"] + [{"op": "ret", "lo": 0, "hi": 0}]
+    cfg = K.config(m, {"check_badsalt_chars": [{"op": "ret", "lo": 0, "hi": 0}], "yescrypt_kdf": kdf})
+    from . import unit_contracts
+    for k in unit_contracts.CONTRACTS:
+        cfg["contracts"].pop(k, None)
+    cfg["traceRegions"] = ["phrase", "setting"]
+    t0 = time.time()
+    res = xai.run_cells(info["bc"], cells, cfg, chunk=1)
+    out = {"res": res, "meta": meta, "wall": time.time() - t0, "ncells": len(cells)}
+    _CACHE[key] = out
+    return out
